@@ -77,6 +77,8 @@ type c04World struct {
 	// addedDuring: the name was published directly (Add) while its own creation was running
 	addedDuring map[string]bool
 	attempts    map[string]int // creation attempts so far: early references carry their attempt's number
+	// earlyFails: the early-reference factory registered for the running creation of the name fails
+	earlyFails map[string]bool
 }
 
 var c04Names = []string{"a", "b"}
@@ -92,6 +94,11 @@ func (w *c04World) exec(ops []c04Op) {
 			}
 		case "G0", "G1":
 			got, err := w.reg.GetSingleton(o.N, o.K == "G1")
+			if o.K == "G1" && w.inCreat[o.N] && !w.earlyFails[o.N] && w.pubs[o.N] == nil && !w.addedDuring[o.N] && (got == nil || err != nil) {
+				// a creation is running and its early-reference factory works: a look-up that allows
+				// early references observes the early reference
+				w.viol = append(w.viol, fmt.Sprintf("G1(%s) during the creation of %s returned nothing (err=%v) although an early-reference factory is registered", o.N, o.N, err))
+			}
 			if p := w.pubs[o.N]; p != nil && (got != p || err != nil) {
 				w.viol = append(w.viol, fmt.Sprintf("%s(%s) returned something else than the published instance", o.K, o.N))
 			}
@@ -120,6 +127,7 @@ func (w *c04World) exec(ops []c04Op) {
 				continue // a factory only exposes a name it is creating
 			}
 			attempt, name := w.attempts[o.N], o.N
+			w.earlyFails[name] = false
 			w.reg.AddSingletonFactory(name, container.FuncSingletonFactory(func() (*cd.Meta, error) {
 				return cd.NewMeta(&dummyComp{fmt.Sprintf("early-%s#%d", name, attempt)}), nil
 			}))
@@ -147,6 +155,7 @@ func (w *c04World) exec(ops []c04Op) {
 				w.failedN[o.N] = false
 				w.attempts[o.N]++
 				attempt := w.attempts[o.N]
+				w.earlyFails[o.N] = o.EarlyF
 				w.reg.AddSingletonFactory(o.N, container.FuncSingletonFactory(func() (*cd.Meta, error) {
 					if o.EarlyF {
 						return nil, errors.New("early factory fails")
@@ -282,7 +291,7 @@ func c04Trees(c *core.Ctx) {
 	}
 	Cases(c, gen, func(c *core.Ctx, cs c04Case) {
 		tr := scen.NewTraceSCR(64, 1<<30)
-		w := &c04World{tr: tr, states: states, inCreat: map[string]bool{}, pubs: map[string]*cd.Meta{}, failedN: map[string]bool{}, addedDuring: map[string]bool{}, attempts: map[string]int{}}
+		w := &c04World{tr: tr, states: states, inCreat: map[string]bool{}, pubs: map[string]*cd.Meta{}, failedN: map[string]bool{}, addedDuring: map[string]bool{}, attempts: map[string]int{}, earlyFails: map[string]bool{}}
 		w.reg = tr.Wrap(support.DefaultSingletonComponentRegistry())
 		w.exec(cs.Ops)
 		c.S.Evaluations++
